@@ -23,7 +23,12 @@ def explore_combo(combo, max_paths, classify_name):
     def run(fs):
         return fn(symfs.ROOT, *params, slots=tpl.cands)
 
+    wall_cap = 120 if max_paths <= 4000 else 420       # seconds per combo (quick / thorough): a combo cut here is counted as not exhausted
+    capped = False
     for fs, res in symfs.explore(tpl, run, max_paths=max_paths):
+        if time.time() - t > wall_cap:
+            capped = True
+            break
         out['paths'] += 1
         if isinstance(res, symfs.BudgetExceeded):
             out['budget'] += 1
@@ -56,7 +61,7 @@ def explore_combo(combo, max_paths, classify_name):
     out['solver_calls'] = ex.solver_calls
     out['solver_s'] = round(ex.solver_time, 3)
     out['forks'] = ex.forks
-    out['complete'] = out['paths'] < max_paths
+    out['complete'] = out['paths'] < max_paths and not capped
     out['time_s'] = round(time.time() - t, 2)
     return out
 
@@ -163,7 +168,7 @@ def run_property(ctx, combos, classify_name, max_paths, describe_params, known_f
         'samples': samples, 'states': tot_paths, 'transitions': solver_calls, 'traces_validated_against_impl': fidelity_checked,
         'combos': len(combos), 'combos_not_exhausted_within_path_cap': incomplete, 'solver_calls': solver_calls, 'solver_time_s': round(solver_s, 1),
         'known_region_hits': known_hits,
-        'bounds': {'templates': {n: {'slots': t.slots, 'targets': t.targets} for n, t in symfs.templates().items()}, 'max_paths_per_combo': max_paths},
+        'bounds': {'templates': {n: {'slots': t.slots, 'targets': t.targets} for n, t in symfs.templates().items()}, 'max_paths_per_combo': max_paths, 'max_seconds_per_combo': 120 if max_paths <= 4000 else 420},
         'stubs': ['os.scandir', 'os.stat', 'os.lstat', 'os.open', 'os.close', 'os.getcwd', 'os.chdir', 'os.readlink (symbolic tree; ELOOP after 40 hops)'],
         'exhaustive': not ctx.inconclusive and incomplete == 0,
         'outside_claim': ['trees larger than the templates', 'entry names other than the templates\' names (name content is E1\'s job)'],
